@@ -82,6 +82,7 @@ fn run(name: &str, args: &Value) -> Value {
         "c03_mixed_frame" => c03::mixed_frame(args),
         "c03_late_reply" => c03::late_reply(args),
         "c03_routing" => c03::routing(args),
+        "c03_id_kind" => c03::id_kind(args),
         "c04_notifications" => c04::notifications(args),
         "c05_array_vs_single" => c05::array_vs_single(args),
         "c05_close_in_array" => c05::close_in_array(args),
